@@ -200,7 +200,9 @@ def wsgi_call(app, env):
 
 
 URL_KEYS = [('fproto', 'HTTP_X_FORWARDED_PROTO'), ('scheme', 'wsgi.url_scheme'), ('fhost', 'HTTP_X_FORWARDED_HOST'),
-            ('host', 'HTTP_HOST'), ('sname', 'SERVER_NAME'), ('sport', 'SERVER_PORT'), ('qs', 'QUERY_STRING')]
+            ('host', 'HTTP_HOST'), ('sname', 'SERVER_NAME'), ('sport', 'SERVER_PORT'), ('qs', 'QUERY_STRING'),
+            ('script', 'SCRIPT_NAME')]
+SCRIPTS = [None] * 8 + ['', '/', '/app', '/a/b/', 'app', '//x//y//', '/a?b', '/a;p/c', '/a#f', '/..', '/a/./b', '/\t/x', ' /s']
 
 
 def gen_urlenv(rng, rich=True):
@@ -214,6 +216,7 @@ def gen_urlenv(rng, rich=True):
     d['sname'] = rng.choice([None, '', 'srv', 'localhost', t(3)])
     d['sport'] = rng.choice([None, '', '80', '443', '8080', t(2)])
     d['qs'] = rng.choice([None, '', 'a=1&b=2', t(), t(10), latin1_view(t(10)), t(10)])
+    d['script'] = rng.choice(SCRIPTS) if rng.random() < .9 else gen_text(rng, 3)
     if not rich:
         d['fproto'] = None
         d['scheme'] = 'http'
@@ -226,14 +229,28 @@ def put_urlenv(env, d):
             env[key] = d[k]
 
 
+LIB_UNUSED = 'ok:' + hs('LIB-NOT-CONSULTED')
+
+
 def fullpath_of(env, config):
-    """the value of the library-call parameter of the model: Request.fullpath on a copy"""
+    """Request.fullpath of the live code on a copy of the environ: ('ok:<hex>' | 'err:<Name>', exception).
+    This is also the library parameter of the model (urljoin's answer), which the model may consult only
+    when an authority part `//...` has to be validated; when no `//` can arise the harness ships a
+    sentinel instead, so a model that leaned on the parameter would be caught."""
     from ombott.request_pkg import Request
     e2 = {k: v for k, v in env.items() if not k.startswith('ombott.')}
     try:
         return 'ok:' + hs(Request(e2, config=config).fullpath), None
     except Exception as ex:
         return 'err:' + type(ex).__name__, ex
+
+
+def lib_param(env, real):
+    sn = env.get('SCRIPT_NAME')
+    t = ('/' + sn.strip('/') + '/' if sn else '/') + '|' + env.get('PATH_INFO', '')
+    for ch in '\t\r\n':
+        t = t.replace(ch, '')
+    return real if '//' in t else LIB_UNUSED
 
 
 def urlenv_args(d, fullpath):
@@ -293,12 +310,12 @@ class C20(Check):
     design_ref = '6/C20'
     level_text = ('Lean theorems over the model of html.escape/html_escape (generated replacement tables), repr, '
                   'error_render.render over the generated error.html lines, default_error_handler (HTML and JSON), '
-                  'Request.url assembly and the last-resort page of wsgi: for every URL/Host/query text the page is '
+                  'Request.url assembly (urlquote, urlunsplit, urljoin) and the last-resort page of wsgi: for every URL/Host/query text the page is '
                   'fixed template text around an escaped cell that contains no < > " \' and & only as an entity; '
                   'json.dumps output of the error dict parses back to the same values; model tied to the code by '
                   'real Ombott() WSGI calls on every run.')
-    level_note_extra = ('urljoin (Request.fullpath) and str.isprintable are parameters; routing and the user handler '
-                        'are a parameter (which error arises); debug off')
+    level_note_extra = ('str.isprintable and the authority validation inside urljoin are parameters; routing and the '
+                        'user handler are a parameter (which error arises); debug off')
     anchors = ['ombott/error_render.py', 'ombott/error.html', 'ombott/ombott.py', 'ombott/common_helpers.py',
                'ombott/request_pkg/props_mixin.py']
     rule = ('paths, query strings, Host/X-Forwarded-Host/X-Forwarded-Proto values built from markup, quotes, braces, '
@@ -306,8 +323,10 @@ class C20(Check):
             '400/413 bad body via errors_map, 500 crashing handler, hook or iterator, unsupported item type, abort, last-resort page via a failing '
             'error handler or a URL urljoin rejects) x HTML/JSON (Accept) x debug off/on x GET/HEAD through real '
             'Ombott() WSGI calls; unit lines for escape, repr, urlquote, json.dumps, json parsing, str.format, '
-            'render, Request.url; non-trivial = input contains one of < > " \' & { }')
-    assumptions = ['urljoin (Request.fullpath) is a parameter: its live result is shipped to the model',
+            'render, Request.fullpath, Request.url; non-trivial = input contains one of < > " \' & { }')
+    assumptions = ['urljoin is modelled except for the validation of an authority part (//host: IPv6 brackets, NFKC): '
+                   'there its live result is shipped to the model; elsewhere a sentinel is shipped instead',
+                   'default app_name_header / no domain_map; X-Script-Name not consulted (allow_x_script_name off)',
                    'str.isprintable is a parameter of the theorems (the driver uses the table probed from CPython)',
                    'environ values are str (WSGI); lone surrogates are outside the model',
                    'which error arises (routing, handler behaviour) is a parameter; only its rendering is modelled',
@@ -464,24 +483,50 @@ class C20(Check):
                         dict(kind='render', debug=debug, status=E.status, body=body, exc=exc, tb=tb, url=url)))
             self.bump('unit:render:debug' + str(int(debug)))
 
-        # -- unit: Request.url
-        for _ in range(n // 2):
+        # -- unit: Request.fullpath and Request.url
+        PATHS = ['/http://[x', '/x://[', '/http://a]b/', '//[', '/a/../../b', '/./a/.', '/http://ok/x', '/x:y', '/', '',
+                 '/a/..', '/a/b/../..', '/..', '/.', '/a//b///c', '/ //h/p', '/\t//h', '/a;p?q#f', '/?q', '/#f', '/;p',
+                 '/a/b;p/c;q', '/a?', '/a#', '/1x:y', '/x+.-:y', '/ x:y', '/\x01\x1f x', '/a\tb\rc\nd', '/a /b', '/%2e%2e/x']
+        for _ in range(n):
             d = gen_urlenv(rng)
             env = base_env()
             put_urlenv(env, d)
-            path = '/' + gen_text(rng, 6)
-            if rng.random() < .15:
-                path = rng.choice(['/http://[x', '/x://[', '/http://a]b/', '//[', '/a/../../b', '/./a/.', '/http://ok/x', '/x:y'])
+            k = rng.random()
+            if k < .3:
+                path = rng.choice(PATHS) + (gen_text(rng, 2) if rng.random() < .5 else '')
+            elif k < .6:
+                path = '/' + '/'.join(rng.choice(['a', 'b', '.', '..', '', 'x;p', 'c?d', 'e#f', ' ', 'x:y', gen_text(rng, 1)])
+                                      for _ in range(rng.randint(0, 6)))
+            else:
+                path = '/' + gen_text(rng, 6)
             env['PATH_INFO'] = path
-            if rng.random() < .3:
-                env['SCRIPT_NAME'] = rng.choice(['', '/', '/app', '/a/b/', 'app', gen_text(rng, 3)])
-            fp, _ = fullpath_of(env, None)
-            try:
-                ans = 'ok ' + hs(Request(dict(env)).url)
-            except Exception as ex:
-                ans = 'err ' + type(ex).__name__
-            out.append(('errorpage url ' + urlenv_args(d, fp), ans, dict(kind='url', env=d, path=path, script=env.get('SCRIPT_NAME'))))
-            self.bump('unit:url:' + ans.split(' ')[0])
+            real, _ = fullpath_of(env, None)
+            lib = lib_param(env, real)
+            self.bump('unit:fullpath:' + real.split(':')[0] + (':lib-unused' if lib == LIB_UNUSED else ':lib'))
+            out.append((f'errorpage fullpath {o(d["script"])} {hs(path)} {lib}', real.replace(':', ' ', 1),
+                        dict(kind='fullpath', script=d['script'], path=path)))
+            if rng.random() < .5:
+                try:
+                    ans = 'ok ' + hs(Request(dict(env)).url)
+                except Exception as ex:
+                    ans = 'err ' + type(ex).__name__
+                out.append(('errorpage url ' + urlenv_args(d, lib) + ' ' + hs(path), ans, dict(kind='url', env=d, path=path)))
+                self.bump('unit:url:' + ans.split(' ')[0])
+
+        # exhaustive small scope for the urljoin model (thorough tier): every PATH_INFO '/' + w, |w| <= 5, over
+        # the characters urljoin treats specially
+        if n >= 5000:
+            import itertools
+            alpha = ['a', '/', '.', ';', '?', '#', ':', ' ']
+            for k in range(0, 6):
+                for tup in itertools.product(alpha, repeat=k):
+                    path = '/' + ''.join(tup)
+                    env = base_env()
+                    env['PATH_INFO'] = path
+                    real, _ = fullpath_of(env, None)
+                    out.append((f'errorpage fullpath ~ {hs(path)} {lib_param(env, real)}', real.replace(':', ' ', 1),
+                                dict(kind='fullpath', script=None, path=path)))
+                    self.bump('unit:fullpath:exhaustive<=5')
 
         # -- WSGI calls
         apps = Apps()
@@ -526,7 +571,6 @@ class C20(Check):
                                   'application/json; q=1', 'application/jsonx', 'text/html, application/json',
                                   ' application/json', gen_text(rng, 3)])
         c['env'] = gen_urlenv(rng, rich=rng.random() < .5)
-        c['script'] = rng.choice([None] * 6 + ['', '/app', '/a/b/'])
         tail = gen_text(rng, 6)
         kind = rng.choice(['nf', 'nf', 'nf', 'na', 'crash', 'crash', 'hook', 'badpath', 'badpath', 'reqerr', 'json',
                            'big', 'abort', 'ok', 'ipv6', 'gen', 'badtype'])
@@ -565,8 +609,6 @@ class C20(Check):
         raw = bytes.fromhex(c['raw'])
         env = base_env('HEAD' if c['head'] else c['method'])
         put_urlenv(env, c['env'])
-        if c['script'] is not None:
-            env['SCRIPT_NAME'] = c['script']
         if c['accept'] is not None:
             env['HTTP_ACCEPT'] = c['accept']
         env['PATH_INFO'] = raw.decode('latin1')
@@ -594,6 +636,7 @@ class C20(Check):
         e2 = dict(env)
         e2['PATH_INFO'] = path
         fp, fp_exc = fullpath_of(e2, app.config)
+        fp = lib_param(e2, fp)
         status, ctype, body = wsgi_call(app, env)
         # what routing / the handler did (observed; a parameter of the model)
         hit = cur.hit
